@@ -317,7 +317,7 @@ pub fn specs_no_n() -> Vec<Spec> {
 
 pub fn run(ctx: &Ctx) -> CheckOutput {
     let quick = ctx.tier == Tier::Quick;
-    let ns: Vec<usize> = if quick { vec![2, 3, 4, 5, 8] } else { vec![2, 3, 4, 5, 6, 7, 8, 9, 10, 12, 16, 24] };
+    let ns: Vec<usize> = if quick { vec![2, 3, 4, 5, 7, 8, 12] } else { vec![2, 3, 4, 5, 6, 7, 8, 9, 10, 12, 16, 24] };
     let pdepth = if quick { 5 } else { 6 };
     let cap = if quick { 20_000 } else { 500_000 };
     let mut jobs: Vec<Job> = vec![];
